@@ -74,9 +74,11 @@ Fixpoint pyn (c : cbor) : res cbor :=
   | CTag t x =>
       if t =? 2 then match x with CBytes b => Ok (CUint (unbe b 0)) | _ => Raise ValueError end
       else if t =? 3 then match x with CBytes b => Ok (CNint (unbe b 0)) | _ => Raise ValueError end
-      else if existsb (Z.eqb t) semantic_tags then Raise Unsupported
+      (* semantic tags give library objects (datetime, Decimal, UUID, ...) that no node type accepts: they are kept as
+         opaque tagged values, which every type check rejects in the same way; tags that cbor2 unwraps (55799, 28, 29,
+         256) are the exception and are left to the harness triage *)
       else match pyn x with Raise e => Raise e | Ok x' => Ok (CTag t x') end
-  | CSimple v => if (v =? 20) || (v =? 21) || (v =? 22) then Ok c else Raise Unsupported
+  | CSimple v => Ok c     (* false / true / null; undefined and other simple values are opaque objects *)
   | _ => Ok c
   end.
 
